@@ -2131,18 +2131,16 @@ class Measurement:
             return NotImplemented
 
         measurand = self.measurand**exponent
-        uncertainty = math.sqrt(
-            _pow(
-                _mul(
-                    exponent,
-                    _mul(
-                        _pow(self.measurand.magnitude, 2),
-                        self.uncertainty.magnitude,
-                    ),
-                ),
-                2,
-            )
-        )
+        # first-order propagation: |d(x**n)/dx| * sigma = |n * x**(n - 1)| * sigma;
+        # the slope of x**0 is 0 and of x**1 is 1 for every x, including x == 0
+        slope: Numeric
+        if exponent == 0:
+            slope = 0
+        elif exponent == 1:
+            slope = 1
+        else:
+            slope = _mul(exponent, _pow(self.measurand.magnitude, exponent - 1))
+        uncertainty = abs(_mul(slope, self.uncertainty.magnitude))
         return Measurement(measurand, uncertainty)
 
 
